@@ -19,6 +19,9 @@ import CxxModel.Theorems.TypedefForm
 import CxxModel.Theorems.FwdDecl
 import CxxModel.Theorems.UsingAliasForm
 import CxxModel.Theorems.ClassForm
+import CxxModel.Theorems.EnumDecl
+import CxxModel.Theorems.FnDecl
+import CxxModel.Theorems.MethodDecl
 import CxxModel.Theorems.AccessForm
 import CxxModel.Theorems.BlockEnd
 import CxxModel.Theorems.Verbose
@@ -814,5 +817,225 @@ theorem toplevel_class_end (env : Env) (hp : RulesProgress env.cfg = true) (F : 
   refine ⟨w3, ?_, hb3, hs3⟩
   rw [hi]
   simp only [dispatch, hi3]
+
+/-- **`enum [class|struct] N { e1 [= v1] , … , en [= vn] } ;` through `parse()`'s loop**, in any block, with
+    an active visitor that does not raise here: exactly ONE `on_enum` for the innermost open block
+    with the written key and qualified name, one enumerator per item, in order, with the written
+    names and exactly the written value tokens (none where no `=` is written), the access level
+    in force and the doc text found before it; consumed exactly, no doc text handed on. -/
+theorem toplevel_enum (env : Env) (hp : RulesProgress env.cfg = true) (F D : Nat) (w : World)
+    (kw : Tok) (cs : Option Tok) (first : Tok) (pairs : List (Tok × Tok)) (ob : Tok) (pre : List EItem) (last : EItem) (semi : Tok)
+    (bk b0 b1 bmid bl bEnd : Buf)
+    (blk : Block) (rest : List Block) (hstack : w.stack = blk :: rest)
+    (hacc : blk.hdr.kind = .cls → ∃ a, blk.access = some a)
+    (hmu : w.muted = false) (hfa : ¬ env.faultAt = some w.delivered)
+    (htkw : tokenEofOk env.cfg w.buf = .ok (some kw, bk)) (hkw : kw.value = "enum") (hkwt : kw.type = "enum")
+    (hcs : match cs with
+      | none => b0 = bk
+      | some c => tokenEofOk env.cfg bk = .ok (some c, b0) ∧ (c.type = "class" ∨ c.type = "struct"))
+    (hcsv : ∀ c, cs = some c → c.value = c.type)
+    (htf : tokenEofOk env.cfg b0 = .ok (some first, b1)) (hf : first.type = "NAME") (hfv : plainVal first.value = true)
+    (hall : ∀ p ∈ pairs, p.1.type = "DBL_COLON" ∧ p.2.type = "NAME" ∧ plainVal p.2.value = true)
+    (hy : Yields env.cfg b1 (pairs.flatMap (fun p => [p.1, p.2])) bmid)
+    (htob : tokenEofOk env.cfg bmid = .ok (some ob, bl)) (hob : ob.type = "{")
+    (hpre : ∀ i ∈ pre, i.OK ∧ i.sep.type = "," ∧ i.toks.length + 2 ≤ F)
+    (hlast : last.OK ∧ last.sep.type = "}" ∧ last.toks.length + 2 ≤ F)
+    (hyl : Yields env.cfg bl ((pre ++ [last]).flatMap EItem.toks ++ [semi]) bEnd) (hs : semi.type = ";")
+    (hF : pairs.length + 2 ≤ F) (hF2 : pre.length + 1 ≤ F) :
+    ∃ (d : Option String) (bD : Buf) (w7 : World) (ct : CTok) (vs : List Enumerator) (ev : Event),
+      getDoxygen env.cfg env.mcRe w.buf = .ok (d, bD) ∧
+      interp env (mainBody F (core F (D + 1 + 1)) none) w = (w7, .ok (.inl none)) ∧
+      vs.map Enumerator.nv = (pre ++ [last]).map EItem.nv ∧
+      SigEq bEnd w7.buf ∧ w7.stack = { blk with loc := .tok ct.sidx } :: rest ∧
+      w7.events = w.events ++ [ev] ∧ ev.kind = .item (.enum (plainEnum cs first pairs vs blk d)) ∧
+      ev.stateId = blk.id ∧ ev.parentId = rest.head?.map (·.id) ∧
+      w7.delivered = w.delivered + 1 ∧ w7.anon = w.anon ∧ w7.muted = false ∧ w7.nextId = w.nextId := by
+  obtain ⟨d, bD, wA, ct, hd, hsA, hbA, htyc, hv, hi⟩ := mainBody_item env hp F (core F (D + 1 + 1)) w kw bk htkw
+  obtain ⟨w7, vs, ev, hi7, hvs, hsig, hst7, hev7, hk7, hid7, hpar7, hdl7, han7, hmu7, hnx7⟩ :=
+    parseDeclarations_enum env hp F D ct d cs first pairs ob pre last semi { wA with mainTok := some ct } b0 b1 bmid bl bl bEnd blk rest
+      (by show wA.stack = _; rw [hsA.stack]; exact hstack) hacc (by show wA.muted = _; rw [hsA.muted]; exact hmu)
+      (by show ¬ env.faultAt = some wA.delivered; rw [hsA.delivered]; exact hfa) (by rw [hv]; exact hkw)
+      (by rw [htyc]; exact hkwt)
+      (by
+        cases cs with
+        | none => simp only at hcs ⊢; show b0 = wA.buf; rw [hbA]; exact hcs
+        | some c => simp only at hcs ⊢; show tokenEofOk env.cfg wA.buf = _ ∧ _; rw [hbA]; exact hcs)
+      hcsv htf hf hfv hall hy htob hob hpre hlast hyl hs hF hF2
+  refine ⟨d, bD, w7, ct, vs, ev, hd, ?_, hvs, hsig, hst7, by rw [hev7]; show wA.events ++ _ = _; rw [hsA.events], hk7, hid7, hpar7,
+    by rw [hdl7]; show wA.delivered + 1 = _; rw [hsA.delivered], by rw [han7]; exact hsA.anon, hmu7, by rw [hnx7]; exact hsA.nextId⟩
+  rw [hi]
+  have hkt : Gen.dispatchTable.lookup ct.type = none ∧ Gen.keepDoxygen.contains ct.type = false := by
+    rw [htyc, hkwt, dispatch_table_eq, keep_doxygen_eq]
+    exact ⟨by decide, by decide⟩
+  have hti : topItem F (core F (D + 1 + 1)) ct d = parseDeclarations F (core F (D + 1 + 1)) ct d := by
+    unfold topItem
+    rw [hkt.1]
+  have hcar : carry ct d = none := by
+    unfold carry
+    rw [hkt.2]
+    rfl
+  rw [hti, hi7, hcar]
+
+/-- **`T ptr-ops f ( ) ;` — a function declaration without parameters through `parse()`'s loop**, outside a
+    class, with an active visitor that does not raise here: exactly ONE `on_function` with the name
+    `f`, the return type the declarator prefix denotes, an empty parameter list, no specifiers, no
+    body, and the doc text found before it; consumed exactly, no doc text handed on. -/
+theorem toplevel_function (env : Env) (hp : RulesProgress env.cfg = true) (F D : Nat) (w : World)
+    (first : Tok) (pairs : List (Tok × Tok)) (ops : List Tok) (x op cp semi : Tok) (d1 : DType) (b1 b0 bmid bx bo bc b' : Buf)
+    (blk : Block) (rest : List Block) (hstack : w.stack = blk :: rest) (hk : blk.hdr.kind ≠ .cls)
+    (hmu : w.muted = false) (hfa : ¬ env.faultAt = some w.delivered)
+    (htok : tokenEofOk env.cfg w.buf = .ok (some first, b1))
+    (hty : first.type = "NAME") (htv : identVal first.value = true)
+    (hall : ∀ p ∈ pairs, p.1.type = "DBL_COLON" ∧ p.2.type = "NAME" ∧ plainVal p.2.value = true)
+    (hy0 : Yields env.cfg b1 (pairs.flatMap (fun p => [p.1, p.2])) b0)
+    (hops : opsHeadOk ops = true) (hopsv : ∀ o ∈ ops, o.value ≠ "auto")
+    (hy : Yields env.cfg b0 ops bmid)
+    (ha : applyPtrOps (.type (.mk (.name first.value none :: pairs.map (fun p => .name p.2.value none)) none false) false false)
+      (ops.map (·.type)) = some d1)
+    (htx : tokenEofOk env.cfg bmid = .ok (some x, bx)) (hx : x.type = "NAME") (hxv : identVal x.value = true)
+    (hto : tokenEofOk env.cfg bx = .ok (some op, bo)) (hop : op.type = "(")
+    (htc : tokenEofOk env.cfg bo = .ok (some cp, bc)) (hcp : cp.type = ")")
+    (hsemi : tokenEofOk env.cfg bc = .ok (some semi, b')) (hs : semi.type = ";")
+    (hF : pairs.length + ops.length + 2 ≤ F) :
+    ∃ (d : Option String) (bD : Buf) (w7 : World) (ct : CTok) (ev : Event),
+      getDoxygen env.cfg env.mcRe w.buf = .ok (d, bD) ∧
+      interp env (mainBody F (core F (D + 1 + 1)) none) w = (w7, .ok (.inl none)) ∧
+      w7.buf = b' ∧ ct.value = first.value ∧ w7.stack = { blk with loc := .tok ct.sidx } :: rest ∧
+      w7.events = w.events ++ [ev] ∧ ev.kind = .item (.function (plainFunction x d1 d)) ∧
+      ev.stateId = blk.id ∧ ev.parentId = rest.head?.map (·.id) ∧
+      w7.delivered = w.delivered + 1 ∧ w7.anon = w.anon ∧ w7.muted = false ∧ w7.nextId = w.nextId := by
+  obtain ⟨d, bD, wA, ct, hd, hsA, hbA, htyc, hv, hi⟩ := mainBody_item env hp F (core F (D + 1 + 1)) w first b1 htok
+  obtain ⟨w7, ev, hi7, hsig, hst7, hev7, hk7, hid7, hpar7, hdl7, han7, hmu7, hnx7, _⟩ :=
+    parseDeclarations_function env F D ct d pairs ops x op cp semi d1 { wA with mainTok := some ct } b0 bmid bx bo bc b' blk rest
+      (by show wA.stack = _; rw [hsA.stack]; exact hstack) hk (by show wA.muted = _; rw [hsA.muted]; exact hmu)
+      (by show ¬ env.faultAt = some wA.delivered; rw [hsA.delivered]; exact hfa) (htyc.trans hty) (by rw [hv]; exact htv) hall
+      (by show Yields env.cfg wA.buf _ _; rw [hbA]; exact hy0) hops hopsv hy (by rw [hv]; exact ha) htx hx hxv hto hop htc hcp hsemi hs hF
+  refine ⟨d, bD, w7, ct, ev, hd, ?_, hsig, hv, hst7, by rw [hev7]; show wA.events ++ _ = _; rw [hsA.events], hk7, hid7, hpar7,
+    by rw [hdl7]; show wA.delivered + 1 = _; rw [hsA.delivered], by rw [han7]; exact hsA.anon, hmu7,
+    by rw [hnx7]; exact hsA.nextId⟩
+  rw [hi]
+  have hti : topItem F (core F (D + 1 + 1)) ct d = parseDeclarations F (core F (D + 1 + 1)) ct d := by
+    unfold topItem
+    have : Gen.dispatchTable.lookup "NAME" = none := by rw [dispatch_table_eq]; decide
+    rw [htyc, hty, this]
+  have hcar : carry ct d = none := by
+    unfold carry
+    have : Gen.keepDoxygen.contains "NAME" = false := by rw [keep_doxygen_eq]; decide
+    rw [htyc, hty, this]
+    rfl
+  rw [hti, hi7, hcar]
+
+/-- **`T ptr-ops f ( p1 , … , pn ) ;` — a function declaration through `parse()`'s loop**, outside a class, with
+    an active visitor that does not raise here; every `pi` a plain parameter `Ti ptr-ops name`, any
+    number of them: exactly ONE `on_function` with the name `f`, the return type the declarator
+    prefix denotes, one parameter per item, in order, each with its own name and the type ITS
+    declarator denotes (no default, no pack), no vararg, no specifiers, no body, and the doc text
+    found before it; consumed exactly, no doc text handed on. -/
+theorem toplevel_function_params (env : Env) (hp : RulesProgress env.cfg = true) (F D : Nat) (w : World)
+    (first : Tok) (pairs : List (Tok × Tok)) (ops : List Tok) (x op : Tok) (ps : List (PItem × DType × Tok)) (last : PItem × DType) (cp semi : Tok) (d1 : DType) (b1 b0 bmid bx bo bc b' : Buf)
+    (blk : Block) (rest : List Block) (hstack : w.stack = blk :: rest) (hk : blk.hdr.kind ≠ .cls)
+    (hmu : w.muted = false) (hfa : ¬ env.faultAt = some w.delivered)
+    (htok : tokenEofOk env.cfg w.buf = .ok (some first, b1))
+    (hty : first.type = "NAME") (htv : identVal first.value = true)
+    (hall : ∀ p ∈ pairs, p.1.type = "DBL_COLON" ∧ p.2.type = "NAME" ∧ plainVal p.2.value = true)
+    (hy0 : Yields env.cfg b1 (pairs.flatMap (fun p => [p.1, p.2])) b0)
+    (hops : opsHeadOk ops = true) (hopsv : ∀ o ∈ ops, o.value ≠ "auto")
+    (hy : Yields env.cfg b0 ops bmid)
+    (ha : applyPtrOps (.type (.mk (.name first.value none :: pairs.map (fun p => .name p.2.value none)) none false) false false)
+      (ops.map (·.type)) = some d1)
+    (htx : tokenEofOk env.cfg bmid = .ok (some x, bx)) (hx : x.type = "NAME") (hxv : identVal x.value = true)
+    (hto : tokenEofOk env.cfg bx = .ok (some op, bo)) (hop : op.type = "(")
+    (hallp : ∀ q ∈ ps, q.1.OK q.2.1 ∧ q.2.2.type = "," ∧ q.2.2.value ≠ ")" ∧ q.1.pairs.length + q.1.ops.length + 2 ≤ F)
+    (hlastp : last.1.OK last.2) (hlF : last.1.pairs.length + last.1.ops.length + 2 ≤ F) (hcp : cp.type = ")") (hcpv : cp.value = ")")
+    (hyp : Yields env.cfg bo (ps.flatMap (fun q => q.1.toks ++ [q.2.2]) ++ (last.1.toks ++ [cp])) bc) (hFp : ps.length + 1 ≤ F)
+    (hsemi : tokenEofOk env.cfg bc = .ok (some semi, b')) (hs : semi.type = ";")
+    (hF : pairs.length + ops.length + 2 ≤ F) :
+    ∃ (d : Option String) (bD : Buf) (w7 : World) (ct : CTok) (ev : Event),
+      getDoxygen env.cfg env.mcRe w.buf = .ok (d, bD) ∧
+      interp env (mainBody F (core F (D + 1 + 1 + 1 + 1)) none) w = (w7, .ok (.inl none)) ∧
+      w7.buf = b' ∧ ct.value = first.value ∧ w7.stack = { blk with loc := .tok ct.sidx } :: rest ∧
+      w7.events = w.events ++ [ev] ∧ ev.kind = .item (.function { plainFunction x d1 d with
+        parameters := ps.map (fun q => q.1.param q.2.1) ++ [last.1.param last.2] }) ∧
+      ev.stateId = blk.id ∧ ev.parentId = rest.head?.map (·.id) ∧
+      w7.delivered = w.delivered + 1 ∧ w7.anon = w.anon ∧ w7.muted = false ∧ w7.nextId = w.nextId := by
+  obtain ⟨d, bD, wA, ct, hd, hsA, hbA, htyc, hv, hi⟩ := mainBody_item env hp F (core F (D + 1 + 1 + 1 + 1)) w first b1 htok
+  obtain ⟨w7, ev, hi7, hsig, hst7, hev7, hk7, hid7, hpar7, hdl7, han7, hmu7, hnx7, _⟩ :=
+    parseDeclarations_function_params env F D ct d pairs ops x op ps last cp semi d1 { wA with mainTok := some ct } b0 bmid bx bo bc b' blk rest
+      (by show wA.stack = _; rw [hsA.stack]; exact hstack) hk (by show wA.muted = _; rw [hsA.muted]; exact hmu)
+      (by show ¬ env.faultAt = some wA.delivered; rw [hsA.delivered]; exact hfa) (htyc.trans hty) (by rw [hv]; exact htv) hall
+      (by show Yields env.cfg wA.buf _ _; rw [hbA]; exact hy0) hops hopsv hy (by rw [hv]; exact ha) htx hx hxv hto hop hallp hlastp hlF hcp hcpv hyp hFp hsemi hs hF
+  refine ⟨d, bD, w7, ct, ev, hd, ?_, hsig, hv, hst7, by rw [hev7]; show wA.events ++ _ = _; rw [hsA.events], hk7, hid7, hpar7,
+    by rw [hdl7]; show wA.delivered + 1 = _; rw [hsA.delivered], by rw [han7]; exact hsA.anon, hmu7,
+    by rw [hnx7]; exact hsA.nextId⟩
+  rw [hi]
+  have hti : topItem F (core F (D + 1 + 1 + 1 + 1)) ct d = parseDeclarations F (core F (D + 1 + 1 + 1 + 1)) ct d := by
+    unfold topItem
+    have : Gen.dispatchTable.lookup "NAME" = none := by rw [dispatch_table_eq]; decide
+    rw [htyc, hty, this]
+  have hcar : carry ct d = none := by
+    unfold carry
+    have : Gen.keepDoxygen.contains "NAME" = false := by rw [keep_doxygen_eq]; decide
+    rw [htyc, hty, this]
+    rfl
+  rw [hti, hi7, hcar]
+
+/-- **`T ptr-ops f ( p1 , … , pn ) qualifiers ;` in a class body — a member function through `parse()`'s loop**,
+    with an active visitor that does not raise here: exactly ONE `on_class_method` for the innermost
+    open class with the name, the return type, one parameter per item (own name, own type), the
+    access level in force in THAT class and exactly the written qualifier flags (`const`,
+    `volatile`, `override`, `final`, `&`, `&&`, any number, any order); consumed exactly. -/
+theorem toplevel_method (env : Env) (hp : RulesProgress env.cfg = true) (F D : Nat) (w : World)
+    (first : Tok) (pairs : List (Tok × Tok)) (ops : List Tok) (x op : Tok) (ps : List (PItem × DType × Tok)) (last : PItem × DType) (cp semi : Tok) (quals : List Tok) (m' : Function) (d1 : DType) (b1 b0 bmid bx bo bc bq b' : Buf)
+    (blk : Block) (rest : List Block) (hstack : w.stack = blk :: rest) (hk : blk.hdr.kind = .cls)
+    (hmu : w.muted = false) (hfa : ¬ env.faultAt = some w.delivered)
+    (htok : tokenEofOk env.cfg w.buf = .ok (some first, b1))
+    (hty : first.type = "NAME") (htv : identVal first.value = true)
+    (hall : ∀ p ∈ pairs, p.1.type = "DBL_COLON" ∧ p.2.type = "NAME" ∧ plainVal p.2.value = true)
+    (hy0 : Yields env.cfg b1 (pairs.flatMap (fun p => [p.1, p.2])) b0)
+    (hops : opsHeadOk ops = true) (hopsv : ∀ o ∈ ops, o.value ≠ "auto")
+    (hy : Yields env.cfg b0 ops bmid)
+    (ha : applyPtrOps (.type (.mk (.name first.value none :: pairs.map (fun p => .name p.2.value none)) none false) false false)
+      (ops.map (·.type)) = some d1)
+    (htx : tokenEofOk env.cfg bmid = .ok (some x, bx)) (hx : x.type = "NAME") (hxv : identVal x.value = true)
+    (hto : tokenEofOk env.cfg bx = .ok (some op, bo)) (hop : op.type = "(")
+    (hallp : ∀ q ∈ ps, q.1.OK q.2.1 ∧ q.2.2.type = "," ∧ q.2.2.value ≠ ")" ∧ q.1.pairs.length + q.1.ops.length + 2 ≤ F)
+    (hlastp : last.1.OK last.2) (hlF : last.1.pairs.length + last.1.ops.length + 2 ≤ F) (hcp : cp.type = ")") (hcpv : cp.value = ")")
+    (hyp : Yields env.cfg bo (ps.flatMap (fun q => q.1.toks ++ [q.2.2]) ++ (last.1.toks ++ [cp])) bc) (hFp : ps.length + 1 ≤ F)
+    (hyq : Yields env.cfg bc quals bq)
+    (hsemi : tokenEofOk env.cfg bq = .ok (some semi, b')) (hs : semi.type = ";") (hsv : semi.value = ";") (hFq : quals.length + 1 ≤ F)
+    (hF : pairs.length + ops.length + 2 ≤ F) :
+    ∀ (d : Option String) (bD : Buf), getDoxygen env.cfg env.mcRe w.buf = .ok (d, bD) →
+    applyQuals { plainFunction x d1 d with parameters := ps.map (fun q => q.1.param q.2.1) ++ [last.1.param last.2], isMethod := true, access := blk.access }
+      (quals.map (·.value)) = some m' →
+    ∃ (w7 : World) (ct : CTok) (ev : Event),
+      interp env (mainBody F (core F (D + 1 + 1 + 1 + 1)) none) w = (w7, .ok (.inl none)) ∧
+      w7.buf = b' ∧ ct.value = first.value ∧ w7.stack = { blk with loc := .tok ct.sidx } :: rest ∧
+      w7.events = w.events ++ [ev] ∧ ev.kind = .item (.classMethod m') ∧
+      ev.stateId = blk.id ∧ ev.parentId = rest.head?.map (·.id) ∧
+      w7.delivered = w.delivered + 1 ∧ w7.anon = w.anon ∧ w7.muted = false ∧ w7.nextId = w.nextId := by
+  intro d bD hdx haq
+  obtain ⟨d', bD', wA, ct, hd, hsA, hbA, htyc, hv, hi⟩ := mainBody_item env hp F (core F (D + 1 + 1 + 1 + 1)) w first b1 htok
+  rw [hdx] at hd
+  injection hd with hd; injection hd with hd1 hd2
+  subst hd1; subst hd2
+  obtain ⟨w7, ev, hi7, hsig, hst7, hev7, hk7, hid7, hpar7, hdl7, han7, hmu7, hnx7, _⟩ :=
+    parseDeclarations_method env F D ct d pairs ops x op ps last cp semi quals m' d1 { wA with mainTok := some ct } b0 bmid bx bo bc bq b' blk rest
+      (by show wA.stack = _; rw [hsA.stack]; exact hstack) hk (by show wA.muted = _; rw [hsA.muted]; exact hmu)
+      (by show ¬ env.faultAt = some wA.delivered; rw [hsA.delivered]; exact hfa) (htyc.trans hty) (by rw [hv]; exact htv) hall
+      (by show Yields env.cfg wA.buf _ _; rw [hbA]; exact hy0) hops hopsv hy (by rw [hv]; exact ha) htx hx hxv hto hop hallp hlastp hlF hcp hcpv hyp hFp hyq haq hsemi hs hsv hFq hF
+  refine ⟨w7, ct, ev, ?_, hsig, hv, hst7, by rw [hev7]; show wA.events ++ _ = _; rw [hsA.events], hk7, hid7, hpar7,
+    by rw [hdl7]; show wA.delivered + 1 = _; rw [hsA.delivered], by rw [han7]; exact hsA.anon, hmu7,
+    by rw [hnx7]; exact hsA.nextId⟩
+  rw [hi]
+  have hti : topItem F (core F (D + 1 + 1 + 1 + 1)) ct d = parseDeclarations F (core F (D + 1 + 1 + 1 + 1)) ct d := by
+    unfold topItem
+    have : Gen.dispatchTable.lookup "NAME" = none := by rw [dispatch_table_eq]; decide
+    rw [htyc, hty, this]
+  have hcar : carry ct d = none := by
+    unfold carry
+    have : Gen.keepDoxygen.contains "NAME" = false := by rw [keep_doxygen_eq]; decide
+    rw [htyc, hty, this]
+    rfl
+  rw [hti, hi7, hcar]
 
 end Cxx
